@@ -116,6 +116,14 @@ Theorem C17_interpolation_keeps : forall A lin est c (x : col A),
 Proof. intros. split; [apply interp_col_keeps | apply interp_col_length]. Qed.
 Print Assumptions C17_interpolation_keeps.
 
+(* an empty column stays empty and is not flagged, provided the imputer proposes nothing for it
+   (_interpolate_col returns an all-NaN column untouched; the harness checks that on every execution) *)
+Theorem C17_empty_column_stays_empty : forall A lin est c (x : col A),
+  all_missing A x -> all_missing A (est c x) ->
+  interp_col lin est c x = x /\ flags x (interp_col lin est c x) = map (fun _ => false) x.
+Proof. exact empty_column_stays_empty. Qed.
+Print Assumptions C17_empty_column_stays_empty.
+
 (* ffill followed by bfill alone complete a column that has a value (the time method makes them idle today) *)
 Theorem C17_last_fallbacks_suffice : forall A (x : col A), has_value A x -> all_present A (bfill (ffill x)).
 Proof. exact bfill_ffill_complete. Qed.
